@@ -66,6 +66,13 @@ type Query { user(id: ID!): User patch(p: Patch): Int forced: Forced }
 type Person { name: String! }
 type Query { account: Account! }
 `),
+		// value-typed struct fields: cycles and self references between types whose Go names differ from their schema names
+		mk(defaultConfig+"struct_fields_always_pointers: false\n", `type user_profile { self: user_profile! peer: Other_thing! name: String }
+type Other_thing { back: user_profile! again: user_profile }
+type Plain { self: Plain! other: Second! }
+type Second { plain: Plain! }
+type Query { u: user_profile p: Plain }
+`),
 		// interfaces implementing interfaces, unions, enums, nested inputs with defaults
 		mk(defaultConfig, `interface Node { id: ID! }
 interface Named implements Node { id: ID! name: String! }
